@@ -249,6 +249,29 @@ Lemma mmask_false m A :
   (forall i j, (i < D)%nat -> (j < D)%nat -> m i j = false) -> meq (mmask m A) mzero.
 Proof. intros H i j Hi Hj. unfold mmask, mzero. rewrite H; auto. reflexivity. Qed.
 
+(** products of masked matrices *)
+Lemma mmask_mul_closed m1 m2 m3 (A B : M) :
+  (forall i r j, (i < D)%nat -> (r < D)%nat -> (j < D)%nat ->
+                 m1 i r = true -> m2 r j = true -> m3 i j = true) ->
+  meq (mmask m3 (mmul (mmask m1 A) (mmask m2 B))) (mmul (mmask m1 A) (mmask m2 B)).
+Proof.
+  intros H i j Hi Hj. unfold mmask at 1. destruct (m3 i j) eqn:E3. reflexivity.
+  symmetry. unfold mmul. apply bigsum_zero. intros r Hr. apply in_range in Hr.
+  unfold mmask. destruct (m1 i r) eqn:E1, (m2 r j) eqn:E2; try non_commutative_ring.
+  rewrite (H i r j Hi Hr Hj E1 E2) in E3. discriminate.
+Qed.
+
+Lemma mmask_mul_zero m1 m2 (A B : M) :
+  (forall i r j, (i < D)%nat -> (r < D)%nat -> (j < D)%nat ->
+                 m1 i r = true -> m2 r j = true -> False) ->
+  meq (mmul (mmask m1 A) (mmask m2 B)) mzero.
+Proof.
+  intros H i j Hi Hj. unfold mmul, mzero. apply bigsum_zero. intros r Hr.
+  apply in_range in Hr.
+  unfold mmask. destruct (m1 i r) eqn:E1, (m2 r j) eqn:E2; try non_commutative_ring.
+  elim (H i r j Hi Hr Hj E1 E2).
+Qed.
+
 Global Instance mmask_am m : AddMap (mmask m).
 Proof.
   split. exact (mmask_P m). exact (mmask_add m). exact (mmask_opp m).
